@@ -20,6 +20,9 @@ from vlib.hx import Skip
 
 BYTES_CHOICES = (b'', b'\x00\xff', b'abc', b'\x01' * 60)       # the last one is longer than a base64 line
 TS_CHOICES = (datetime.datetime(2015, 5, 12, 15, 50, 38), datetime.datetime(1999, 12, 31, 23, 59, 59))
+# encode-only payloads (they do not decode back to an equal value): a timezone-aware instant, microseconds
+TS_ENCODE_ONLY = (datetime.datetime(2015, 5, 12, 15, 50, 38, tzinfo=datetime.timezone.utc),
+                  datetime.datetime(2015, 5, 12, 15, 50, 38, 250000))
 MAP_KEYS = ('k', 'kk')
 
 
@@ -43,6 +46,7 @@ class Gen:
         self.sym_level = sym_level       # leaves are symbolic only within this many enclosing user types
         self.level = 0
         self.const = False               # inside a non-focus field: fixed valid values, fixed choices
+        self.ts_choices = TS_CHOICES
 
     def cls(self, dt):
         return getattr(self.modules[dt.namespace.name], fmt_class(dt.name))
@@ -81,7 +85,7 @@ class Gen:
             v = BYTES_CHOICES[p.choice(len(BYTES_CHOICES))]
             return v, v
         if is_timestamp_type(dt):
-            v = TS_CHOICES[p.choice(len(TS_CHOICES))]
+            v = self.ts_choices[p.choice(len(self.ts_choices))]
             return v, v
         if is_list_type(dt):
             if self.const:
